@@ -201,7 +201,13 @@ Qed.
 Lemma keeps2_refresh_tail X st ttl a k w1 : GP X w1 -> G2 w1 -> aget key_eqb k (inner a (get_store st w1)) = None ->
   has_store st w1 = true -> G2 (fst (refresh_tail st ttl a k w1)).
 Proof.
-  intros Hg [H2 Hne] Hnone Hh1. unfold refresh_tail. destruct (ttl =? TTL_FOREVER).
+  intros Hg0 H20 Hnone0 Hh0. unfold refresh_tail. cbv zeta.
+  assert (Hg : GP X (ghost (GRefresh st a k ttl) w1)) by (apply GP_ghost; exact Hg0).
+  assert (H2' : G2 (ghost (GRefresh st a k ttl) w1)) by exact H20.
+  assert (Hnone : aget key_eqb k (inner a (get_store st (ghost (GRefresh st a k ttl) w1))) = None) by exact Hnone0.
+  assert (Hh1 : has_store st (ghost (GRefresh st a k ttl) w1) = true) by exact Hh0.
+  revert Hg H2' Hnone Hh1. generalize (ghost (GRefresh st a k ttl) w1). clear w1 Hg0 H20 Hnone0 Hh0. intros w1 Hg [H2 Hne] Hnone Hh1.
+  destruct (ttl =? TTL_FOREVER).
   - cbn [fst]. rewrite inner_touch, (adel_none _ _ Hnone).
     destruct (put_store_frame st (aset N.eqb a (inner a (get_store st w1) ++ [(k, None)]) (touch a (get_store st w1))) w1) as (_&F2&F3&_).
     split; [|unfold ne_ready; rewrite F2; exact Hne].
@@ -479,6 +485,7 @@ Proof.
     apply NoDup_remove_2 in Hn. rewrite <- map_app in Hn. rewrite <- map_app. exact Hn. }
   unfold store_expired. rewrite inner_touch, Hst1, Hget.
   pose proof (n_store_callback st k a (put_store st (aset N.eqb a (adel key_eqb k (inner a (get_store st w))) (touch a (get_store st w1))) w1)) as Hs.
+  match goal with |- G2 (ghost ?g ?x) => change (G2 x) end.
   eapply same_G2; [exact Hs|].
   set (s' := aset N.eqb a (adel key_eqb k (inner a (get_store st w))) (touch a (get_store st w1))).
   destruct (put_store_frame st s' w1) as (_&F2&F3&_).
@@ -522,6 +529,20 @@ Lemma GG_arrivals : forall hs w, all_notexp hs -> GG [] w -> GG [] (fold_left (f
 Proof.
   induction hs as [|h hs IH]; intros w Ha Hg; cbn [fold_left]; [exact Hg|]. inversion Ha as [|? ? Hh Ha']; subst.
   apply IH; [exact Ha'|]. eapply GG_same; [apply n_call_soon; exact Hh|exact Hg].
+Qed.
+
+Lemma GG_iter_pre arrivals rv w : all_notexp arrivals -> GG [] w -> GG [] (iter_pre arrivals rv w).
+Proof.
+  intros Ha Hg. split; [apply G_iter_pre; exact (proj1 Hg)|].
+  pose proof (GG_arrivals arrivals w Ha Hg) as [_ [H2 Hne]].
+  destruct (iter_pre_sub arrivals rv w) as (Hsub & Hc & Hf & Hi). cbv zeta in *.
+  split.
+  - intros tid st a k Hin Hnc. rewrite Hc in Hnc.
+    assert (Hst : get_store st (iter_pre arrivals rv w) = get_store st (fold_left (fun acc h => call_soon h acc) arrivals w)).
+    { destruct st as [|i]; unfold get_store; rewrite ?Hf, ?Hi; reflexivity. }
+    rewrite Hst. apply H2; [apply Hsub; exact Hin|exact Hnc].
+  - unfold ne_ready, iter_pre. cbv zeta. cbn [ready set_timers set_ready]. rewrite forallb_app. unfold ne_ready in Hne. rewrite Hne. cbn [andb].
+    apply forallb_forall. intros x Hx. apply in_map_iff in Hx. destruct Hx as (t & <- & _). reflexivity.
 Qed.
 
 Theorem GG_iteration arrivals rv w : all_notexp arrivals -> GG [] w -> GG [] (iteration arrivals rv w).
